@@ -28,7 +28,7 @@ NoTh == [pc |-> "done", opi |-> 1, k |-> 0, c |-> Absent, keys |-> <<>>, unref |
 ConcInit(n, idx, cas, nv, orph, progs) ==
     [n |-> n, idx |-> idx, intents |-> [k \in Keys |-> Absent], icount |-> [c \in AllContents |-> 0],
      cas |-> cas, nv |-> nv, lp |-> nv - 1,
-     lkI |-> 0, lkS |-> 0, lkW |-> 0, rd |-> {}, orph |-> orph, prog |-> progs,
+     lkI |-> 0, lkS |-> 0, lkW |-> 0, rd |-> {}, ug |-> {}, wq |-> {}, orph |-> orph, prog |-> progs,
      th |-> [t \in DOMAIN progs |-> [NoTh EXCEPT !.pc = IF progs[t] = <<>> THEN "done" ELSE "call"]],
      edges |-> {}]
 
@@ -46,9 +46,13 @@ Enabled(s, t) ==
     LET p == s.th[t].pc IN
     /\ p # "done"
     /\ NeedsI(p) => s.lkI = 0
-    /\ NeedsSw(p) => s.lkS = 0 /\ s.rd = {}
-    /\ NeedsSr(p) => s.lkS = 0
+    /\ NeedsSw(p) => s.lkS = 0 /\ s.rd = {} /\ s.ug = {}
+    /\ NeedsSr(p) => s.lkS = 0 /\ s.wq = {}          \* task-fair RwLock: a queued writer blocks new readers
     /\ NeedsW(p) => s.lkW = 0
+
+\* thread t reaches state.write() while the lock is busy: it queues
+CanQueue(s, t) == NeedsSw(s.th[t].pc) /\ ~(s.lkS = 0 /\ s.rd = {} /\ s.ug = {}) /\ t \notin s.wq
+Queue(s, t) == [s EXCEPT !.wq = @ \cup {t}]
 
 Held(s, t) == (IF s.lkI = t THEN {"I"} ELSE {}) \cup (IF s.lkS = t THEN {"S"} ELSE {}) \cup (IF s.lkW = t THEN {"W"} ELSE {})
 LockOf(p) == IF NeedsI(p) THEN "I" ELSE IF NeedsSw(p) \/ NeedsSr(p) THEN "S" ELSE IF NeedsW(p) THEN "W" ELSE "-"
@@ -89,7 +93,8 @@ StepT(s, t) ==
                                                      !.seen = IF k = 0 THEN {} ELSE {s.idx[k]}, !.res = "none"]]
             IN (CASE op.op = "put" -> At(s2, t, "staged")
                  [] op.op = "abort" -> Ret(s2, t, "ok", 0)
-                 [] op.op \in {"get", "size", "range", "reader", "del", "delr"} -> At(s2, t, "Sr:read")
+                 [] op.op \in {"get", "size", "range", "reader", "del", "delr", "guard"} -> At(s2, t, "Sr:read")
+                 [] op.op = "unguard" -> Ret([s2 EXCEPT !.ug = @ \ {t}], t, "ok", 0)
                  [] op.op = "ckpt" -> At(s2, t, "Sw:ckpt")
                  [] op.op \in {"cleanup", "quarantine"} ->
                         IF s.orph = <<>> THEN Ret(s2, t, "ok", 0)
@@ -103,7 +108,7 @@ StepT(s, t) ==
             At([s1 EXCEPT !.intents[me.k] = me.c, !.icount[me.c] = @ + 1], t, "F:rename")
       [] p = "F:rename" -> At([s1 EXCEPT !.cas = @ \cup {me.c}], t, "I:put")
       [] p \in {"I:put", "I:rm"} -> At([s1 EXCEPT !.lkI = t], t, "Sw:apply")
-      [] p = "Sw:apply" -> At([s1 EXCEPT !.lkS = t], t, "W:apply")
+      [] p = "Sw:apply" -> At([s1 EXCEPT !.lkS = t, !.wq = @ \ {t}], t, "W:apply")
       [] p = "W:apply" ->
             LET isPut  == CurOp(s, t).op = "put"
                 lop    == IF isPut THEN PutOp(me.k, me.c) ELSE RmOp(me.keys)
@@ -126,14 +131,15 @@ StepT(s, t) ==
             IF me.rolled THEN At(s1, t, "Sw:roll")
             ELSE LET op == CurOp(s, t) IN
                  Ret(s1, t, IF op.op = "put" THEN "ok" ELSE IF op.op = "del" THEN "true" ELSE "count", Len(me.keys))
-      [] p \in {"Sw:roll", "Sw:ckpt"} -> At([s1 EXCEPT !.lkS = t], t, IF p = "Sw:roll" THEN "W:roll" ELSE "W:ckpt")
+      [] p \in {"Sw:roll", "Sw:ckpt"} -> At([s1 EXCEPT !.lkS = t, !.wq = @ \ {t}], t, IF p = "Sw:roll" THEN "W:roll" ELSE "W:ckpt")
       [] p \in {"W:roll", "W:ckpt"} ->
             LET s2 == [s1 EXCEPT !.lp = s.nv - 1, !.lkS = 0]
                 op == CurOp(s, t) IN
             Ret(s2, t, IF op.op \in {"put", "ckpt"} THEN "ok" ELSE IF op.op = "del" THEN "true" ELSE "count", Len(me.keys))
       [] p = "Sr:read" ->
             LET op == CurOp(s, t) IN
-            (CASE op.op \in {"get", "size", "range", "reader"} ->
+            (CASE op.op = "guard" -> Ret([s1 EXCEPT !.ug = @ \cup {t}], t, "ok", 0)     \* a user keeps an IndexReadGuard
+              [] op.op \in {"get", "size", "range", "reader"} ->
                     IF s.idx[me.k] = Absent THEN Ret(s1, t, Absent, 0)
                     ELSE \* OpenUnderGuard: the read guard is kept until the blob file is open
                          At([s1 EXCEPT !.th[t].item = s.idx[me.k], !.rd = IF OpenUnderGuard THEN @ \cup {t} ELSE @], t, "F:read_open")
